@@ -294,11 +294,14 @@ func Term(v ssa.Value) string {
 
 func term(v ssa.Value, depth int) string {
 	if depth > 12 {
-		return fmt.Sprintf("?%s", v.Name())
+		return fmt.Sprintf("?%s", localName(v))
 	}
 	v = ResolveFree(v)
 	switch x := v.(type) {
 	case *ssa.Parameter:
+		if sub, ok := ParamSubst[x]; ok {
+			return sub
+		}
 		return "param(" + x.Name() + ")"
 	case *ssa.FreeVar:
 		return "free(" + x.Name() + ")"
@@ -337,7 +340,7 @@ func term(v ssa.Value, depth int) string {
 	case *ssa.Alloc:
 		return fmt.Sprintf("alloc(%s@%d)", x.Comment, x.Pos())
 	case *ssa.Phi:
-		return fmt.Sprintf("phi(%s@%s)", x.Comment, x.Name())
+		return fmt.Sprintf("phi(%s@%s)", x.Comment, localName(x))
 	case *ssa.Lookup:
 		return "lookup(" + term(x.X, depth+1) + "," + term(x.Index, depth+1) + ")"
 	case *ssa.IndexAddr:
@@ -353,8 +356,21 @@ func term(v ssa.Value, depth int) string {
 	case *ssa.TypeAssert:
 		return "assert(" + term(x.X, depth+1) + ")"
 	}
-	return fmt.Sprintf("%T(%s)", v, v.Name())
+	return fmt.Sprintf("%T(%s)", v, localName(v))
 }
+
+// localName: a function-qualified register name (terms of different functions
+// share one namespace once helpers are inlined).
+func localName(v ssa.Value) string {
+	if in, ok := v.(ssa.Instruction); ok && in.Parent() != nil {
+		return in.Parent().Name() + ":" + v.Name()
+	}
+	return v.Name()
+}
+
+// ParamSubst, while a helper is being analysed in the context of a call site
+// (Inliner), maps the helper's parameters to the terms of the call's arguments.
+var ParamSubst = map[*ssa.Parameter]string{}
 
 // CanonField, when set, maps a struct field to its canonical (role) name, so
 // that rules are insensitive to renames of unexported fields.
@@ -712,6 +728,41 @@ func (t Tokens) clone() Tokens {
 type FlowFuncs struct {
 	Instr func(in ssa.Instruction, t Tokens)              // mutate t
 	Edge  func(b *ssa.BasicBlock, idx int, t Tokens) bool // mutate t; return false if the edge is infeasible given t
+	// Call (PathFlow only), applied after Instr: the token sets that hold after
+	// the instruction instead of t (nil = just t). Used to inline helpers.
+	Call func(in ssa.Instruction, t Tokens) []Tokens
+}
+
+func (ff FlowFuncs) step(ins ssa.Instruction, ts []Tokens) []Tokens {
+	if ff.Instr != nil {
+		for _, t := range ts {
+			ff.Instr(ins, t)
+		}
+	}
+	if ff.Call == nil {
+		return ts
+	}
+	if _, ok := ins.(*ssa.Call); !ok {
+		return ts
+	}
+	var out []Tokens
+	changed := false
+	for _, t := range ts {
+		if r := ff.Call(ins, t); r != nil {
+			out = append(out, r...)
+			changed = true
+		} else {
+			out = append(out, t)
+		}
+	}
+	if !changed {
+		return ts
+	}
+	var d DNF
+	for _, t := range out {
+		d, _ = d.add(t)
+	}
+	return d
 }
 
 // MustFlow returns tokens at entry of each block (nil for unreachable).
@@ -834,11 +885,16 @@ func (d DNF) add(t Tokens) (DNF, bool) {
 
 // PathFlow runs the disjunctive forward analysis over fn.
 func PathFlow(fn *ssa.Function, ff FlowFuncs) map[*ssa.BasicBlock]DNF {
+	return PathFlowFrom(fn, ff, Tokens{})
+}
+
+// PathFlowFrom is PathFlow with the given facts holding on entry.
+func PathFlowFrom(fn *ssa.Function, ff FlowFuncs, init Tokens) map[*ssa.BasicBlock]DNF {
 	in := map[*ssa.BasicBlock]DNF{}
 	if len(fn.Blocks) == 0 {
 		return in
 	}
-	in[fn.Blocks[0]] = DNF{Tokens{}}
+	in[fn.Blocks[0]] = DNF{init.clone()}
 	work := []*ssa.BasicBlock{fn.Blocks[0]}
 	inWork := map[*ssa.BasicBlock]bool{fn.Blocks[0]: true}
 	for iter := 0; len(work) > 0 && iter < 200000; iter++ {
@@ -846,22 +902,22 @@ func PathFlow(fn *ssa.Function, ff FlowFuncs) map[*ssa.BasicBlock]DNF {
 		work = work[1:]
 		inWork[b] = false
 		for _, d0 := range in[b] {
-			t := d0.clone()
+			ts := []Tokens{d0.clone()}
 			for _, ins := range b.Instrs {
-				if ff.Instr != nil {
-					ff.Instr(ins, t)
-				}
+				ts = ff.step(ins, ts)
 			}
-			for idx, s := range b.Succs {
-				te := t.clone()
-				if ff.Edge != nil && !ff.Edge(b, idx, te) {
-					continue
-				}
-				nd, changed := in[s].add(te)
-				in[s] = nd
-				if changed && !inWork[s] {
-					inWork[s] = true
-					work = append(work, s)
+			for _, t := range ts {
+				for idx, s := range b.Succs {
+					te := t.clone()
+					if ff.Edge != nil && !ff.Edge(b, idx, te) {
+						continue
+					}
+					nd, changed := in[s].add(te)
+					in[s] = nd
+					if changed && !inWork[s] {
+						inWork[s] = true
+						work = append(work, s)
+					}
 				}
 			}
 		}
@@ -877,17 +933,17 @@ func AllAt(ff FlowFuncs, flow map[*ssa.BasicBlock]DNF, at ssa.Instruction, pred 
 		return false
 	}
 	for _, d0 := range ds {
-		t := d0.clone()
+		ts := []Tokens{d0.clone()}
 		for _, ins := range at.Block().Instrs {
 			if ins == at {
 				break
 			}
-			if ff.Instr != nil {
-				ff.Instr(ins, t)
-			}
+			ts = ff.step(ins, ts)
 		}
-		if !pred(t) {
-			return false
+		for _, t := range ts {
+			if !pred(t) {
+				return false
+			}
 		}
 	}
 	return true
@@ -957,3 +1013,237 @@ func ConstIntOf(v constant.Value) (int64, bool) {
 	}
 	return constant.Int64Val(v)
 }
+
+// ---------------------------------------------------------------- helper inlining
+
+// Inliner lets a PathFlow rule follow a helper extracted from the function
+// under analysis: at a static call to an in-scope function with a body, the
+// helper is analysed with the same flow functions starting from the caller's
+// facts, its parameters standing for the call's arguments (ParamSubst), and
+// the facts at each of its returns continue in the caller. Each continuation
+// records what the helper returned as its error (or sole bool) result —
+// "ret:<call>=nil|nonnil|true|false|unk" — and Edge prunes the branches of a
+// later test on that result that contradict it.
+type Inliner struct {
+	FF      *FlowFuncs
+	InScope func(h *ssa.Function) bool
+	stack   []*ssa.Function
+	edge    func(b *ssa.BasicBlock, idx int, t Tokens) bool
+}
+
+// NewInliner installs the inliner on ff (wrapping its Edge and setting Call).
+func NewInliner(ff *FlowFuncs, inScope func(*ssa.Function) bool) *Inliner {
+	il := &Inliner{FF: ff, InScope: inScope, edge: ff.Edge}
+	ff.Call = il.call
+	ff.Edge = il.edgeFn
+	return il
+}
+
+func retKey(call *ssa.Call) string { return "ret:" + Term(call) + "=" }
+
+func (il *Inliner) edgeFn(b *ssa.BasicBlock, idx int, t Tokens) bool {
+	for _, cd := range EdgeConds(b, idx) {
+		if x, isNil, ok := NilCheck(cd); ok {
+			var call *ssa.Call
+			switch y := Resolve(x).(type) {
+			case *ssa.Call:
+				call = y
+			case *ssa.Extract:
+				if c2, ok := y.Tuple.(*ssa.Call); ok && y.Index == c2.Call.Signature().Results().Len()-1 {
+					call = c2
+				}
+			}
+			if call != nil {
+				k := retKey(call)
+				if (isNil && t[k+"nonnil"]) || (!isNil && t[k+"nil"]) {
+					return false
+				}
+			}
+			continue
+		}
+		if call, ok := Resolve(cd.V).(*ssa.Call); ok {
+			k := retKey(call)
+			if (cd.Pos && t[k+"false"]) || (!cd.Pos && t[k+"true"]) {
+				return false
+			}
+		}
+	}
+	if il.edge != nil {
+		return il.edge(b, idx, t)
+	}
+	return true
+}
+
+func (il *Inliner) call(in ssa.Instruction, t Tokens) []Tokens {
+	call, ok := in.(*ssa.Call)
+	if !ok {
+		return nil
+	}
+	h := call.Call.StaticCallee()
+	if h == nil || h.Blocks == nil || len(il.stack) >= 3 || (il.InScope != nil && !il.InScope(h)) {
+		return nil
+	}
+	for _, s := range il.stack {
+		if s == h {
+			return nil
+		}
+	}
+	if len(call.Call.Args) != len(h.Params) {
+		return nil
+	}
+	// bind parameters (argument terms are computed in the caller's context first)
+	terms := make([]string, len(h.Params))
+	for i, a := range call.Call.Args {
+		terms[i] = Term(a)
+	}
+	saved := map[*ssa.Parameter]string{}
+	had := map[*ssa.Parameter]bool{}
+	for i, p := range h.Params {
+		saved[p], had[p] = ParamSubst[p], false
+		if _, ok := ParamSubst[p]; ok {
+			had[p] = true
+		}
+		ParamSubst[p] = terms[i]
+	}
+	il.stack = append(il.stack, h)
+	defer func() {
+		il.stack = il.stack[:len(il.stack)-1]
+		for _, p := range h.Params {
+			if had[p] {
+				ParamSubst[p] = saved[p]
+			} else {
+				delete(ParamSubst, p)
+			}
+		}
+	}()
+	k := retKey(call)
+	init := t.clone()
+	for tk := range init {
+		if strings.HasPrefix(tk, k) {
+			delete(init, tk)
+		}
+	}
+	flow := PathFlowFrom(h, *il.FF, init)
+	res := h.Signature.Results()
+	var out DNF
+	for _, b := range h.Blocks {
+		if b == h.Recover || len(b.Instrs) == 0 {
+			continue
+		}
+		r, ok := b.Instrs[len(b.Instrs)-1].(*ssa.Return)
+		if !ok {
+			continue
+		}
+		kind := ""
+		if n := res.Len(); n > 0 && res.At(n-1).Type().String() == "error" {
+			ev := RetVal(r, n-1)
+			switch {
+			case IsNilConst(ev):
+				kind = "nil"
+			case provablyNonNil(ev, b):
+				kind = "nonnil"
+			default:
+				kind = "unk"
+				if p, isP := ev.(*ssa.Parameter); isP {
+					for i, q := range h.Params {
+						if q == p && provablyNonNil(call.Call.Args[i], call.Block()) {
+							kind = "nonnil"
+						}
+					}
+				}
+			}
+		} else if n == 1 && res.At(0).Type().String() == "bool" {
+			kind = "unk"
+			if cst, isC := RetVal(r, 0).(*ssa.Const); isC && cst.Value != nil {
+				kind = cst.Value.String()
+			}
+		}
+		for _, d0 := range flow[b] {
+			ts := []Tokens{d0.clone()}
+			for _, ins := range b.Instrs {
+				ts = il.FF.step(ins, ts)
+			}
+			for _, tt := range ts {
+				if kind != "" {
+					tt[k+kind] = true
+				}
+				out, _ = out.add(tt)
+			}
+		}
+	}
+	if len(out) == 0 {
+		return nil // the helper never returns (panics): keep the caller's facts
+	}
+	return out
+}
+
+// provablyNonNil: v is known non-nil at block b: a fresh allocation / call to
+// a constructor-like function, a sentinel error global assigned only in the
+// package initialiser, or guarded by a dominating `v != nil`.
+func provablyNonNil(v ssa.Value, b *ssa.BasicBlock) bool {
+	v = Resolve(v)
+	switch x := v.(type) {
+	case *ssa.MakeInterface:
+		return true
+	case *ssa.Alloc:
+		return true
+	case *ssa.UnOp:
+		if g, ok := x.X.(*ssa.Global); ok && x.Op == token.MUL {
+			return SentinelGlobal(g)
+		}
+	}
+	for _, cd := range CondsAt(b) {
+		if y, isNil, ok := NilCheck(cd); ok && !isNil && Resolve(y) == v {
+			return true
+		}
+	}
+	return false
+}
+
+// SentinelGlobal: a package-level error variable that is assigned only in its
+// package's initialiser, from a call or an allocation (never nil).
+func SentinelGlobal(g *ssa.Global) bool {
+	if g.Pkg == nil {
+		return false
+	}
+	n := 0
+	var fns []*ssa.Function
+	for _, mem := range g.Pkg.Members {
+		switch m := mem.(type) {
+		case *ssa.Function:
+			fns = append(fns, m)
+		case *ssa.Type:
+			for _, T := range []types.Type{m.Type(), types.NewPointer(m.Type())} {
+				ms := g.Pkg.Prog.MethodSets.MethodSet(T)
+				for i := 0; i < ms.Len(); i++ {
+					if f := g.Pkg.Prog.MethodValue(ms.At(i)); f != nil && f.Pkg == g.Pkg {
+						fns = append(fns, f)
+					}
+				}
+			}
+		}
+	}
+	for _, fn := range fns {
+		for _, f := range WithAnon(fn) {
+			for _, b := range f.Blocks {
+				for _, in := range b.Instrs {
+					st, ok := in.(*ssa.Store)
+					if !ok || st.Addr != ssa.Value(g) {
+						continue
+					}
+					if f.Name() != "init" || f.Parent() != nil {
+						return false
+					}
+					switch Resolve(st.Val).(type) {
+					case *ssa.Call, *ssa.MakeInterface, *ssa.Alloc:
+						n++
+					default:
+						return false
+					}
+				}
+			}
+		}
+	}
+	return n == 1
+}
+
